@@ -13,6 +13,10 @@ class Pt:
 class Outer:
   p: Pt
   c: Bits4
+@bitstruct
+class Vec:
+  v: [ Bits4, Bits4, Bits4 ]
+  t: Bits2
 class Inc( Component ):
   def construct( s, nbits ):
     s.in_ = InPort( nbits ); s.out = OutPort( nbits )
